@@ -8,9 +8,10 @@ import concurrent.futures
 import itertools
 import random
 from common import *
+import c17fe
 
 PROP = "C17"
-PROP_FILES = ["Properties/C17.v", "Check/C17Check.v"]
+PROP_FILES = ["Properties/C17.v", "Check/C17Check.v", "Check/C17FeCheck.v"]
 SIG_LOOP = "engine-cancel-from-loop-deadlock"
 SIG_NIL = "engine-double-cancel-nil"
 SIG_UPD = "engine-update-panic-kills"
@@ -464,10 +465,14 @@ def main(tier, seed, replay=None):
     open_sigs = {f["sig"] for f in run.opened}
     qcur = (SIG_LOOP in open_sigs, SIG_NIL in open_sigs, SIG_UPD in open_sigs)
     rng = random.Random(seed)
+    fe_replay = None
     if replay:
         rp = json.load(open(replay))
         cases = []
-        if "case" in rp:
+        if rp.get("case", {}).get("stream") == "front-end":
+            fe_replay = {k: (([tup(e) for e in v]) if k == "events" else v) for k, v in rp["case"].items() if k not in ("stream", "history", "mapped_engine_history", "schedule")}
+            fe_replay.setdefault("id", 0)
+        elif "case" in rp:
             c = rp["case"]
             cases.append({"id": 0, "kind": "replay", "pre": [tup(e) for e in c["pre"]], "clients": [[tup(e) for e in cl] for cl in c.get("clients", [])],
                           "post": [tup(e) for e in c.get("post", [])]})
@@ -481,6 +486,12 @@ def main(tier, seed, replay=None):
                         c["id"] = len(cases)
                         cases.append(c)
     t_prep = time.time() - run.t0
+    if fe_replay is not None or not replay:
+        # front-end stream: the real `arrai serve` of the tree under test (gen/c17fe.py); its own PRNG derived from the seed
+        try:
+            c17fe.run_frontend(run, vh, random.Random(seed * 7919 + 17), tier, fe_replay)
+        except BuildError as e:
+            run.corr_breaks.append({"what": "the server binary of the tree under test does not build", "log": str(e)[-1500:]})
     outs, results, bad, merges = run_cases(run, vh, cases, qcur)
     log("C17: prepare %.1fs, harness+model %.1fs (%d histories)" % (t_prep, time.time() - run.t0 - t_prep, len(cases)))
     byid = {c["id"]: c for c in cases}
